@@ -302,7 +302,7 @@ pub fn run(p: &Params) -> Report {
         }
     }
     // (c) random / mutated longer strings
-    let n_c = p.share(p.n(200_000, 4_000_000));
+    let n_c = p.share(p.n(1_000_000, 30_000_000));
     for _ in 0..n_c {
         let n_ops = 1 + r.usize(12);
         let ops: Vec<Op> = (0..n_ops).map(|_| random_op(&mut r, false)).collect();
@@ -333,7 +333,7 @@ pub fn run(p: &Params) -> Report {
         check_bytes(&mut rep, &b, "random-mutated", true);
     }
     // (d) random instruction lists
-    let n_d = p.share(p.n(50_000, 1_000_000));
+    let n_d = p.share(p.n(300_000, 8_000_000));
     for k in 0..n_d {
         let n_ops = r.usize(14);
         let ops: Vec<Op> = (0..n_ops).map(|_| random_op(&mut r, true)).collect();
@@ -343,7 +343,7 @@ pub fn run(p: &Params) -> Report {
         }
     }
     // (e) loop-heavy programs: weight from bytes / from instructions / reference on nested, clipped and overrunning bodies
-    let n_e = p.share(p.n(60_000, 1_500_000));
+    let n_e = p.share(p.n(400_000, 10_000_000));
     for _ in 0..n_e {
         let n_ops = 1 + r.usize(28);
         let ops: Vec<Op> = (0..n_ops)
